@@ -700,8 +700,10 @@ def _bulk_states(dim, Xe):
 SPK_STATES = {"full": ["zero", "homF1", "inhA", "inhB"], "reduced": ["homF1", "inhA"]}
 PAIRS = {"full": [("zero", "inhB"), ("inhA", "inhB"), ("homF1", "homF2"), ("inhA", "inhA")],
          "reduced": [("inhA", "inhB"), ("homF1", "homF2")]}
-TQ_VARIANTS = {"full": [(0.5, 1, None), (0.5, 2, None), (0.5, 3, None), (0.5, 5, None), (1.0, 3, None), (0.7, 3, None), (0.5, 3, 1e-6), (0.5, 3, 1e-10)],
-               "reduced": [(0.5, 3, None), (0.7, 2, None), (0.5, 3, 1e-8)]}
+# (coefK, nPoints, energyTol); the adaptive rule (energyTol) is paired with coefK != 1/2 too (newmark: 1, hht: 1 - alpha)
+TQ_VARIANTS = {"full": [(0.5, 1, None), (0.5, 2, None), (0.5, 3, None), (0.5, 5, None), (1.0, 3, None), (0.7, 3, None), (0.5, 3, 1e-6), (0.5, 3, 1e-10),
+                        (1.0, 3, 1e-8), (0.7, 2, 1e-6)],
+               "reduced": [(0.5, 3, None), (0.7, 2, None), (0.5, 3, 1e-8), (1.0, 3, 1e-8), (0.7, 2, 1e-6)]}
 NOLAW_STATES = {"full": ["zero", "homF1", "inhA"], "reduced": ["homF1", "inhA"]}
 
 
@@ -954,8 +956,32 @@ def _op_FollowingPressure(case):
                 ntr += 1 + len(stack.chunks)
                 # documented slot convention: K_e -> slot K, R_e -> slot F, Newton residual = -F  =>  K_e = -dR_e/du
                 _compare_tangent(stack, K0, R, f"FollowingPressure {et} at {name} ({k['variant']})", k, v, info, sign=-1.0, check_base=R0)
-    # element subset: exact zeros outside, same values inside
+    # the same elements as a group of a larger mesh: node ids that are not 0..n-1 (other nodes come first, shuffled ids), the
+    # displacement being the GLOBAL dof vector: element arrays must be the same
+    from EasyFEA import ElemType
+    from EasyFEA.FEM._group_elem import GroupElemFactory
+
     ue = inhom_field(3, Xe, "A", amp=2.0)
+    nel, nPe = Xe.shape[:2]
+    r = rng("c18fp_ids", et)
+    off = 5
+    ids = off + r.permutation(nel * nPe)
+    co = r.normal(size=(off + nel * nPe, 3))
+    co[ids] = Xe.reshape(-1, 3)
+    ug = r.normal(size=(off + nel * nPe, 3)) * 0.3
+    ug[ids] = ue.reshape(-1, 3)
+    g1 = GroupElemFactory.Create(ElemType[et], ids.reshape(nel, nPe), co)
+    for mt in (MatrixType.rigi, MatrixType.mass):
+        Ka, Ra = FP(g0, _vec(ue), 1.7, None, mt)
+        Kb, Rb = FP(g1, np.ascontiguousarray(ug.reshape(-1)), 1.7, None, mt)
+        ntr += 2
+        sc = max(float(np.abs(np.asarray(Ka)).max()), 1e-300)
+        if np.asarray(Kb).shape != np.asarray(Ka).shape or np.abs(np.asarray(Kb) - np.asarray(Ka)).max() > 1e-12 * sc \
+                or np.abs(np.asarray(Rb) - np.asarray(Ra)).max() > 1e-12 * max(float(np.abs(np.asarray(Ra)).max()), 1e-300):
+            v.append(viol("global_numbering", f"FollowingPressure {et} ({getattr(mt, 'name', mt)}): the element arrays change when the same elements carry other "
+                                              f"global node ids (group of a larger mesh): max|dK| = {np.abs(np.asarray(Kb) - np.asarray(Ka)).max():.3e}, "
+                                              f"max|dR| = {np.abs(np.asarray(Rb) - np.asarray(Ra)).max():.3e}", op="FollowingPressure", elemType=et))
+    # element subset: exact zeros outside, same values inside
     Kf, Rf = FP(g0, _vec(ue), 1.7, None, MatrixType.mass)
     Ks, Rs = FP(g0, _vec(ue), 1.7, np.array([0]), MatrixType.mass)
     ntr += 2
